@@ -319,6 +319,7 @@ def main(argv=None):
     except ValueError:
         seed = 1
     os.environ["PYTHONHASHSEED"] = os.environ.get("PYTHONHASHSEED", "0")
+    os.environ["VERIF_SEED"] = str(seed)   # for parts that start sub-processes (fuzz campaigns)
     setup_env()
     t0 = time.time()
     prop = args.prop.upper()
